@@ -142,6 +142,7 @@ class C01(Prop):
             return [('n', x) for x in h['names']]
         ops = []
         eid = 0
+        recent = []
         for _ in range(rng.randint(6, 40)):
             r = rng.random()
             if r < 0.22:
@@ -178,10 +179,17 @@ class C01(Prop):
                 ops.append({'op': 'detach', 'c': c, 'sub': sub(c)})
                 parent[c] = c
             elif r < 0.86:
-                x = rng.randrange(NCOMP)
-                ch = rng.choice(['*', 'a', 'b', 'a', 'b', {'comp': rng.randrange(NCOMP)}])
-                ops.append({'op': 'fire', 'x': x, 'e': eid, 'n': rng.choice(NAMES), 'ch': ch})
+                if recent and rng.random() < 0.6:
+                    x, nm, ch = rng.choice(recent)       # same cache key again, after whatever happened in between
+                else:
+                    x = rng.randrange(NCOMP)
+                    ch = rng.choice(['*', 'a', 'b', 'a', 'b', {'comp': rng.randrange(NCOMP)}])
+                    nm = rng.choice(NAMES)
+                    recent.append((x, nm, ch))
+                ops.append({'op': 'fire', 'x': x, 'e': eid, 'n': nm, 'ch': ch})
                 eid += 1
+                if rng.random() < 0.5:
+                    ops.append({'op': 'flush', 'r': root(x)})
             else:
                 roots = [i for i in range(NCOMP) if parent[i] == i]
                 ops.append({'op': 'flush', 'r': rng.choice(roots)})
